@@ -33,6 +33,8 @@ pub use self::fixed::FixedOffset;
 pub(crate) mod local;
 #[cfg(feature = "clock")]
 pub use self::local::Local;
+#[cfg(all(feature = "clock", unix, chrono_verif))]
+pub use self::local::verif;
 
 pub(crate) mod utc;
 pub use self::utc::Utc;
